@@ -149,8 +149,7 @@ def r4_age_order(ck, F):
     ck.ob(R, "final-sources-in-vector-order", ok, "the final cursors are chunks.into_iter().map(open).collect() — vector order", e)
 
 
-def r5_reopen(ck, F):
-    R = "C07-R5"
+def r5_reopen(ck, F, R="C07-R5"):
     n = 0
     for p in (A("sorter_merge_chunks"), A("sorter_extract")):
         for c in F.closures_of(p):
@@ -226,8 +225,7 @@ def r6_sort_table(ck, F):
         ck.ob(R, "parallel-table", ok, "true -> par_sort_by_key(self.sort_algorithm), false -> sort_by_key(self.sort_algorithm)", w)
 
 
-def r7_group(ck, F):
-    R = "C07-R7"
+def r7_group(ck, F, R="C07-R7"):
     b = F.body(A("sorter_write_chunk"))
     cmps = byte_comparisons(b)
     ck.exact(R, "key comparisons in write_chunk", len(cmps), 1, F.config)
